@@ -69,73 +69,17 @@ inductive QEv where
   | fin (drained : Bool)
 deriving DecidableEq, Repr
 
+/-- The monitor keeps the trace so far and, for every pending operation, the trace as it was
+when the operation was invoked; every check is a plain function of these. -/
 structure QMon where
-  idx : Nat := 0
-  pinv : List ((Nat × Nat) × Nat) := []       -- item ↦ index of its put invocation
-  pret : List ((Nat × Nat) × Bool) := []      -- item ↦ result of put
-  ginv : List (Nat × Nat) := []               -- consumer ↦ index of its pending get invocation
-  deliv : List ((Nat × Nat) × Nat) := []      -- delivered item ↦ index of the get response
-  cinv : Option Nat := none
-  cret : Option Nat := none
+  hist : List QEv := []
+  pinv : List ((Nat × Nat) × List QEv) := []   -- item ↦ trace before its put invocation
+  ginv : List (Nat × List QEv) := []           -- consumer ↦ trace before its pending get invocation
 deriving Repr
 
 def lookup {α β : Type} [DecidableEq α] (a : α) : List (α × β) → Option β
   | [] => none
   | (x, y) :: r => if x = a then some y else lookup a r
-
-/-- FIFO in real time: no later item of the same producer was delivered by a get that had
-already returned before this get was invoked. -/
-def fifoOK (deliv : List ((Nat × Nat) × Nat)) (p k gi : Nat) : Bool :=
-  deliv.all (fun d => !(d.1.1 = p ∧ d.1.2 > k ∧ d.2 < gi))
-
-def QMon.step (m : QMon) (e : QEv) : Except String QMon :=
-  let m1 := { m with idx := m.idx + 1 }
-  match e with
-  | .pinv p k =>
-    if (lookup (p, k) m.pinv).isSome then .error "put-invoked-twice"
-    else .ok { m1 with pinv := ((p, k), m.idx) :: m.pinv }
-  | .pret p k ok =>
-    match lookup (p, k) m.pinv with
-    | none => .error "put-response-without-invocation"
-    | some pi =>
-      if ok then
-        match m.cret with
-        | some r => if r < pi then .error "put-accepted-after-close-returned"
-                    else .ok { m1 with pret := ((p, k), ok) :: m.pret }
-        | none => .ok { m1 with pret := ((p, k), ok) :: m.pret }
-      else if m.cinv.isNone then .error "put-rejected-but-never-closed"
-      else if (lookup (p, k) m.deliv).isSome then .error "rejected-item-delivered"
-      else .ok { m1 with pret := ((p, k), ok) :: m.pret }
-  | .ginv c => .ok { m1 with ginv := (c, m.idx) :: m.ginv.filter (fun x => x.1 ≠ c) }
-  | .gitem c p k =>
-    match lookup c m.ginv with
-    | none => .error "get-response-without-invocation"
-    | some gi =>
-      if (lookup (p, k) m.pinv).isNone then .error "phantom-item"
-      else if (lookup (p, k) m.deliv).isSome then .error "item-delivered-twice"
-      else if lookup (p, k) m.pret = some false then .error "rejected-item-delivered"
-      else if !fifoOK m.deliv p k gi then .error "fifo-order"
-      else if (match m.cret with | some r => decide (r < gi) | none => false) then .error "item-after-close-returned"
-      else .ok { m1 with deliv := ((p, k), m.idx) :: m.deliv, ginv := m.ginv.filter (fun x => x.1 ≠ c) }
-  | .gclosed c =>
-    if (lookup c m.ginv).isNone then .error "get-response-without-invocation"
-    else if m.cinv.isNone then .error "closed-error-but-never-closed"
-    else .ok { m1 with ginv := m.ginv.filter (fun x => x.1 ≠ c) }
-  | .gctx c =>
-    if (lookup c m.ginv).isNone then .error "get-response-without-invocation"
-    else .ok { m1 with ginv := m.ginv.filter (fun x => x.1 ≠ c) }
-  | .cinv => .ok { m1 with cinv := some (m.cinv.getD m.idx) }
-  | .cret => if m.cinv.isNone then .error "close-response-without-invocation"
-             else .ok { m1 with cret := some (m.cret.getD m.idx) }
-  | .fin drained =>
-    if drained ∧ !(m.pret.all (fun x => !x.2 || (lookup x.1 m.deliv).isSome)) then .error "item-lost"
-    else .ok m1
-
-def QMon.run (m : QMon) : List QEv → Except String QMon
-  | [] => .ok m
-  | e :: es => match m.step e with
-    | .ok m' => m'.run es
-    | .error s => .error s
 
 /-- Items delivered according to the trace alone, in trace order. -/
 def deliveredOf : List QEv → List (Nat × Nat)
@@ -147,6 +91,81 @@ def putInvokedOf : List QEv → List (Nat × Nat)
   | [] => []
   | .pinv p k :: es => (p, k) :: putInvokedOf es
   | _ :: es => putInvokedOf es
+
+/-- Items whose `put` returned true / false. -/
+def acceptedOf : List QEv → List (Nat × Nat)
+  | [] => []
+  | .pret p k true :: es => (p, k) :: acceptedOf es
+  | _ :: es => acceptedOf es
+
+def rejectedOf : List QEv → List (Nat × Nat)
+  | [] => []
+  | .pret p k false :: es => (p, k) :: rejectedOf es
+  | _ :: es => rejectedOf es
+
+/-- The consumer an invocation / response event of `get` belongs to. -/
+def evConsumer : QEv → Option Nat
+  | .ginv c => some c
+  | .gitem c _ _ => some c
+  | .gclosed c => some c
+  | .gctx c => some c
+  | _ => none
+
+/-- `none` = the event is accepted. -/
+def QMon.check (m : QMon) : QEv → Option String
+  | .pinv p k => if (p, k) ∈ putInvokedOf m.hist then some "put-invoked-twice" else none
+  | .pret p k ok =>
+    match lookup (p, k) m.pinv with
+    | none => some "put-response-without-invocation"
+    | some a =>
+      if ok then (if QEv.cret ∈ a then some "put-accepted-after-close-returned" else none)
+      else if QEv.cinv ∉ m.hist then some "put-rejected-but-never-closed"
+      else if (p, k) ∈ deliveredOf m.hist then some "rejected-item-delivered"
+      else none
+  | .ginv _ => none
+  | .gitem c p k =>
+    match lookup c m.ginv with
+    | none => some "get-response-without-invocation"
+    | some a =>
+      if (p, k) ∉ putInvokedOf m.hist then some "phantom-item"
+      else if (p, k) ∈ deliveredOf m.hist then some "item-delivered-twice"
+      else if (p, k) ∈ rejectedOf m.hist then some "rejected-item-delivered"
+      -- FIFO in real time: no later item of the same producer was delivered by a get that had
+      -- already returned before this get was invoked
+      else if (deliveredOf a).any (fun d => decide (d.1 = p ∧ k < d.2)) then some "fifo-order"
+      else if QEv.cret ∈ a then some "item-after-close-returned"
+      else none
+  | .gclosed c =>
+    if (lookup c m.ginv).isNone then some "get-response-without-invocation"
+    else if QEv.cinv ∉ m.hist then some "closed-error-but-never-closed"
+    else none
+  | .gctx c => if (lookup c m.ginv).isNone then some "get-response-without-invocation" else none
+  | .cinv => none
+  | .cret => if QEv.cinv ∉ m.hist then some "close-response-without-invocation" else none
+  | .fin drained =>
+    if drained ∧ ¬ (∀ it ∈ acceptedOf m.hist, it ∈ deliveredOf m.hist) then some "item-lost" else none
+
+def QMon.step (m : QMon) (e : QEv) : Except String QMon :=
+  match m.check e with
+  | some why => .error why
+  | none =>
+    .ok { hist := m.hist ++ [e],
+          pinv := (match e with
+            | .pinv p k => ((p, k), m.hist) :: m.pinv
+            | _ => m.pinv),
+          ginv := (match evConsumer e with
+            | some c =>
+              let f := m.ginv.filter (fun x => x.1 ≠ c)
+              (match e with
+               | .ginv _ => (c, m.hist) :: f
+               | _ => f)
+            | none => m.ginv) }
+
+def QMon.run (m : QMon) : List QEv → Except String QMon
+  | [] => .ok m
+  | e :: es => match m.step e with
+    | .ok m' => m'.run es
+    | .error s => .error s
 
 /-! ## LimitListener: `iacc` is logged by the inner listener when it hands out a connection
 (the semaphore slot is already held), `iclose` when the inner connection is closed (the slot is
@@ -169,24 +188,31 @@ structure LMon where
   limit : Nat
   opened : List Nat := []     -- ids accepted and not yet closed
   closed : List Nat := []     -- ids closed at least once
-  closeReturned : Bool := false
-  late : List Nat := []       -- acceptors whose pending Accept was invoked after Close returned
+  hist : List LEv := []       -- the trace so far
+  ainv : List (Nat × List LEv) := []   -- acceptor ↦ trace before its pending Accept invocation
 deriving Repr
 
-def LMon.step (m : LMon) : LEv → Except String LMon
+def LMon.step (m : LMon) (e : LEv) : Except String LMon :=
+  let h := m.hist ++ [e]
+  match e with
   | .iacc id =>
     if id ∈ m.opened ∨ id ∈ m.closed then .error "connection-id-reused"
     else if m.opened.length + 1 > m.limit then .error s!"limit-exceeded {m.opened.length + 1} {m.limit}"
-    else .ok { m with opened := id :: m.opened }
+    else .ok { m with opened := id :: m.opened, hist := h }
   | .iclose id =>
-    if id ∈ m.opened then .ok { m with opened := m.opened.erase id, closed := id :: m.closed }
-    else if id ∈ m.closed then .ok m
+    if id ∈ m.opened then .ok { m with opened := m.opened.erase id, closed := id :: m.closed, hist := h }
+    else if id ∈ m.closed then .ok { m with hist := h }
     else .error "close-of-unknown-connection"
-  | .ainv a => .ok { m with late := if m.closeReturned then a :: m.late else m.late.erase a }
-  | .acc a => if a ∈ m.late then .error "accept-after-close-returned-a-connection" else .ok m
-  | .aerr a => .ok { m with late := m.late.erase a }
-  | .lret => .ok { m with closeReturned := true }
-  | .other => .ok m
+  | .ainv a => .ok { m with ainv := (a, m.hist) :: m.ainv.filter (fun x => x.1 ≠ a), hist := h }
+  | .acc a =>
+    match lookup a m.ainv with
+    | none => .error "accept-result-without-invocation"
+    | some x =>
+      if LEv.lret ∈ x then .error "accept-after-close-returned-a-connection"
+      else .ok { m with ainv := m.ainv.filter (fun x => x.1 ≠ a), hist := h }
+  | .aerr a => .ok { m with ainv := m.ainv.filter (fun x => x.1 ≠ a), hist := h }
+  | .lret => .ok { m with hist := h }
+  | .other => .ok { m with hist := h }
 
 def LMon.run (m : LMon) : List LEv → Except String LMon
   | [] => .ok m
